@@ -34,6 +34,9 @@ Readings of the statement adopted in the oracles (see also the comments next to 
    last item whatever it is).  A ListBox whose items do not fit in its view scrolls with the arrows and
    must then move the focus to keep it visible, also onto an unselectable item: exempt (counted as
    trivial); a ListBox whose items all fit is held to the clause.
+ * "offered only to widgets on the focus path" bounds where a key may go; it does not promise that the key
+   arrives.  "The key reaches the drawn focus leaf" is therefore its own check, key-delivered, listed in
+   INFORMATIONAL (observations, never violations).
  * "an unhandled key comes back unchanged": the value returned by the root is None or the key; a key
    bound to no command that no leaf consumed must come back.  The extra "and no focus moved" is not
    applied to ListBox (deferred focus choice, above).
@@ -1197,7 +1200,9 @@ class Acc:
     def add(self, h, ops, as_check=None):
         per = {}
         for check, ok, why, sig, nontrivial, extra in h.out:
-            if as_check is not None:
+            # informational clauses keep their own check name also inside the random histories, otherwise an
+            # observation would turn into a violation of random-histories
+            if as_check is not None and f"{ID}/{check}" not in INFORMATIONAL:
                 sig, extra, check = f"{check}:{sig}", dict(extra, clause=check), as_check
             self.ev[check] = self.ev.get(check, 0) + 1
             per.setdefault(check, False)
@@ -1416,7 +1421,7 @@ def run(tier="quick", seed=0):
         res = c.result()
         bysig = fails.get(name, {})
         # one (smallest) representative per failure signature, most frequent first
-        res["failures"] = [dict(d, occurrences=cnt) for _sig, (cnt, d) in sorted(bysig.items(), key=lambda kv: -kv[1][0])][:20]
+        res["failures"] = [dict(d, occurrences=cnt) for _sig, (cnt, d) in sorted(bysig.items(), key=lambda kv: -kv[1][0])][:60]  # one per signature; random-histories prefixes the clause, so it can exceed 20
         res["failure_signatures"] = {sig: cnt for sig, (cnt, _d) in bysig.items()}
         res["histories"] = histories
         res["cpu_s_all_checks"] = cpu_s
